@@ -80,6 +80,11 @@ func validateBlock(evidencePool EvidencePool, store Store, state LatestBlockStat
 		if len(block.LastCommit().Signatures) != 0 {
 			return ErrLastCommitSig
 		}
+		// Nothing else binds the first block's (empty) last commit: Commit.Hash covers the
+		// signatures only, so its height, round and block id must be the empty ones.
+		if lc := block.LastCommit(); lc.Height != 0 || lc.Round != 0 || !lc.BlockID.IsZero() {
+			return ErrLastCommitSig
+		}
 	} else {
 		// LastCommit.Signatures length is checked in VerifyCommit.
 		if err := state.LastValidators.VerifyCommit(
